@@ -1670,6 +1670,11 @@ func (c *Conn) executeBatch(ctx context.Context, batch *Batch) *Iter {
 				if err := marshalQueryValue(typ, value, v); err != nil {
 					return &Iter{err: err}
 				}
+				if v.name != "" && c.version < protoVersion3 {
+					// later versions refuse named values in batches when the frame is built;
+					// protocol 2 would silently send them by position
+					return &Iter{err: fmt.Errorf("gocql: batch statement %d: named values require protocol version 3 or higher, connection uses version %d", i, c.version)}
+				}
 				if v.isUnset && c.version < protoVersion4 {
 					return &Iter{err: fmt.Errorf("gocql: batch statement %d: UnsetValue requires protocol version 4 or higher, connection uses version %d", i, c.version)}
 				}
